@@ -35,7 +35,9 @@ type h2peerConn struct {
 	st    map[uint32]*h2stream
 	last  uint32
 	gone  bool
-	acked bool // our SETTINGS were acknowledged
+	acked bool  // our SETTINGS were acknowledged
+	wu0   int64 // sum of the WINDOW_UPDATE increments received for the connection (stream 0)
+	sent  int64 // DATA bytes written through dataFC
 	henc  *hpack.Encoder
 	hbuf  bytes.Buffer
 }
@@ -115,6 +117,10 @@ func (p *h2peerConn) readLoop() {
 			}
 		case *http2.RSTStreamFrame:
 			p.stream(f.StreamID).rst = int64(f.ErrCode)
+		case *http2.WindowUpdateFrame:
+			if f.StreamID == 0 {
+				p.wu0 += int64(f.Increment)
+			}
 		}
 		p.cond.Broadcast()
 		p.mu.Unlock()
